@@ -18,7 +18,10 @@
    open the next session (up to MaxSessions) with whatever litter the previous one left.
 
    A file is [ex |-> BOOLEAN, ls |-> sequence of binding lines]; a binding line is
-   [k |-> name index, v |-> value version, t |-> torn?].  `old` is the file the session
+   [k |-> name index, v |-> value version, s |-> shape, t |-> torn?].  The shape (Shape(k)) is the
+   branch of SaveGlobals that writes the binding; the actions do not depend on it - it travels with
+   `new` so that the generated fault schedules cover a failing write at a binding of every shape,
+   with and without further bindings after it.  `old` is the file the session
    found (possibly no file), `new` the lines a complete save of the session's globals
    would write.
 
@@ -41,6 +44,10 @@
 EXTENDS Integers, Sequences, FiniteSets, TLC, Json, GrolPrims
 
 CONSTANTS N,                \* binding names are 1..N
+          Lambdas, Nameds, Aliases,  \* subsets of 1..N: how SaveGlobals writes binding k - "lambda" (name=params=>body),
+                            \* "named" (func name(..){..}, its own branch of SaveGlobals), "alias" (name=func other(..){..}),
+                            \* every other binding is "data" (name=value)
+          MaxOld,           \* the previous file has at most MaxOld lines (N: every content)
           Vals,             \* value versions of a binding (positive integers)
           MaxSessions,      \* sessions (process starts / retries) per behaviour; also the number of temp names
           DirectWrite, IgnoreWriteError, RenameEarly,   \* BOOLEAN deviations, all FALSE = the code
@@ -62,7 +69,8 @@ FileNames == {GR} \cup Temps
 
 File(ls) == [ex |-> TRUE, ls |-> ls]
 NoFile   == [ex |-> FALSE, ls |-> <<>>]
-Line(k, v) == [k |-> k, v |-> v, t |-> FALSE]
+Shape(k) == IF k \in Nameds THEN "named" ELSE IF k \in Aliases THEN "alias" ELSE IF k \in Lambdas THEN "lambda" ELSE "data"
+Line(k, v) == [k |-> k, v |-> v, s |-> Shape(k), t |-> FALSE]
 Torn(l)    == [l EXCEPT !.t = TRUE]
 IsTorn(f)  == Len(f.ls) > 0 /\ f.ls[Len(f.ls)].t
 Whole(f)   == IF IsTorn(f) THEN SubSeq(f.ls, 1, Len(f.ls) - 1) ELSE f.ls   \* the complete lines
@@ -74,7 +82,7 @@ Contents     == {ContentOf(f) : f \in [1..N -> Vals \cup {0}]}
 FirstFree(d) == TName(CHOOSE i \in 1..MaxSessions : ~d[TName(i)].ex /\ \A j \in 1..(i-1) : d[TName(j)].ex)
 
 Init ==
-  /\ old \in {NoFile} \cup {File(c) : c \in Contents}
+  /\ old \in {NoFile} \cup {File(c) : c \in {x \in Contents : Len(x) <= MaxOld}}
   /\ new \in Contents
   /\ changed \in BOOLEAN
   /\ (~changed => new = old.ls)
